@@ -44,6 +44,7 @@ def ResolveDisc (hash : Bytes → Digest) (sz : Digest → Nat) (k : Disk) (name
 def Disciplined (hash : Bytes → Digest) (sz : Digest → Nat) (k : Disk) : Op → Prop
   | .put d size _ => size = sz d
   | .chunk .. => False
+  | .session .. => False
   | .resolve name => ResolveDisc hash sz k name
   | .linkR name _ => ResolveDisc hash sz k name
   | _ => True
@@ -131,6 +132,7 @@ theorem stepOp_allTrusted (hash : Bytes → Digest) (sz : Digest → Nat)
     · split <;> exact h
   | resolve name => exact resolve_allTrusted hash sz k name hd h
   | chunk d size a b cd s => cases hd
+  | session d size puts => cases hd
   | putNeg d s =>
     simp only [stepOp, putNeg]
     apply allTrusted_setBlob hash sz k d _ h
@@ -318,6 +320,7 @@ theorem stepOp_present (hash : Bytes → Digest) (sz : Digest → Nat) (k : Disk
     · split <;> rfl
   | resolve name => exact hres name hd
   | chunk d size a b cd s => cases hd
+  | session d size puts => cases hd
   | putNeg d s => cases hp
   | edit name data => exact hblob _ (by simp only [stepOp]; rw [edit_blob])
 
@@ -617,9 +620,159 @@ theorem stepOpL_eq_stepOp (hash : Bytes → Digest) (fixed zc strict : Bool) (li
   | linkR name d => rfl
   | unlink name => rfl
   | chunk d size a b cd s => rfl
+  | session d size puts => rfl
   | edit name data => rfl
 
 example : stepOpL idh true true false false 2 Disk.empty (.resolve nm) = stepOp idh true true Disk.empty (.resolve nm) :=
   stepOpL_eq_stepOp idh true true false 2 Disk.empty (.resolve nm) (by intro e he; cases he)
+
+/-! ## chunker sessions (one `Chunked`, several `Chunker.Put`s: state reused across calls) -/
+
+/-- the single-`Put` session is `chunkEffs` (the `chunk` op of the histories) -/
+theorem session_single (hash : Bytes → Digest) (st : FileSt) (size a b : Nat) (cd : Digest) (s : Script) :
+    (sessionEffs hash st size [⟨a, b, cd, s⟩]).1 = (chunkEffs hash st size a b cd s).1 ∧
+    (sessionEffs hash st size [⟨a, b, cd, s⟩]).2 = [(chunkEffs hash st size a b cd s).2] := by
+  unfold sessionEffs chunkEffs chunkPutEffs
+  split <;> simp
+
+theorem pwriteAt_end (f bs : Bytes) : pwriteAt f f.length bs = f ++ bs := by
+  unfold pwriteAt
+  split
+  · next h => simp [h]
+  · simp [zeros]
+
+theorem limitChunks_exact : ∀ (chunks : List Bytes) (n : Nat), chunks.flatten.length = n →
+    (limitChunks n chunks .eof).1.flatten = chunks.flatten ∧ (limitChunks n chunks .eof).2 = .eof := by
+  intro chunks
+  induction chunks with
+  | nil => intro n _; simp [limitChunks]
+  | cons c cs ih =>
+    intro n h
+    simp only [List.flatten_cons, List.length_append] at h
+    unfold limitChunks
+    split
+    · next h0 =>
+      subst h0
+      have hc : c = [] := List.eq_nil_of_length_eq_zero (by omega)
+      have hcs : cs.flatten = [] := List.eq_nil_of_length_eq_zero (by omega)
+      simp [hc, hcs]
+    · split
+      · next hge =>
+        have hcs : cs.flatten = [] := List.eq_nil_of_length_eq_zero (by omega)
+        have : c.take n = c := List.take_of_length_le (by omega)
+        simp [hcs, this]
+      · have := ih (n - c.length) (by omega)
+        simp [this.1, this.2]
+
+/-- writing the bytes that come next: a chunk whose source delivers `slice` (hashing to `cd`) onto a file that ends
+    exactly where the chunk starts appends `slice`, and answers ok -/
+theorem copyLoop_append (hash : Bytes → Digest) (slice : Bytes) (base : Nat) :
+    ∀ (chunks : List Bytes) (seen f : Bytes), seen ++ chunks.flatten = slice → f.length = base + seen.length →
+      slice.length ≠ 0 →
+      (copyLoop hash (hash slice) slice.length base seen chunks .eof).2 = .ok ∧
+      run (copyLoop hash (hash slice) slice.length base seen chunks .eof).1 (some f) = some (f ++ chunks.flatten) := by
+  intro chunks
+  induction chunks with
+  | nil =>
+    intro seen f h _ _
+    simp only [List.flatten_nil, List.append_nil] at h
+    subst h
+    simp [copyLoop, run]
+  | cons c cs ih =>
+    intro seen f h hf hne
+    unfold copyLoop
+    split
+    · next hc => subst hc; simpa using ih seen f (by simpa using h) hf hne
+    · next hc =>
+      have hlen : seen.length + c.length + cs.flatten.length = slice.length := by
+        rw [← h]; simp [Nat.add_assoc]
+      have h' : (seen ++ c) ++ cs.flatten = slice := by rw [← h]; simp
+      split
+      · next hu =>
+        exfalso
+        apply hu.2
+        have : cs.flatten = [] := List.eq_nil_of_length_eq_zero (by omega)
+        rw [this, List.append_nil] at h'
+        rw [h']
+      · split
+        · next he => omega
+        · have := ih (seen ++ c) (f ++ c) h' (by simp; omega) hne
+          refine ⟨this.1, ?_⟩
+          simp only [run_cons, applyEff]
+          rw [← hf, pwriteAt_end, this.2]
+          simp
+
+
+/-- the puts tile `content` from offset `off` upward, contiguously and in order, each source delivering exactly its
+    slice, under the slice's own digest (what the registry client does with a manifest's chunk list) -/
+def Tiles (hash : Bytes → Digest) (content : Bytes) : Nat → List CPut → Prop
+  | off, [] => off = content.length
+  | off, c :: cs => c.start = off ∧ c.start ≤ c.stop ∧ c.stop < content.length ∧
+      GoodScript ((content.drop c.start).take (c.stop - c.start + 1)) c.s ∧
+      c.cd = hash ((content.drop c.start).take (c.stop - c.start + 1)) ∧ Tiles hash content (c.stop + 1) cs
+
+theorem tiles_run (hash : Bytes → Digest) (content : Bytes) : ∀ (puts : List CPut) (off : Nat),
+    Tiles hash content off puts → off ≤ content.length →
+    run (puts.flatMap fun c => (chunkPutEffs hash c).1) (some (content.take off)) = some content ∧
+    ∀ r ∈ puts.map (fun c => (chunkPutEffs hash c).2), r = .ok := by
+  intro puts
+  induction puts with
+  | nil =>
+    intro off h _
+    simp only [Tiles] at h
+    subst h
+    simp [run]
+  | cons c cs ih =>
+    intro off h hoff
+    obtain ⟨hs, hle, hlt, hgood, hcd, hrest⟩ := h
+    subst hs
+    have hn : ((content.drop c.start).take (c.stop - c.start + 1)).length = c.stop - c.start + 1 := by
+      simp; omega
+    obtain ⟨hflat, hfin⟩ := hgood
+    have hlim := limitChunks_exact c.s.chunks (c.stop - c.start + 1) (by rw [hflat]; exact hn)
+    have hput := copyLoop_append hash ((content.drop c.start).take (c.stop - c.start + 1)) c.start
+      (limitChunks (c.stop - c.start + 1) c.s.chunks .eof).1 [] (content.take c.start)
+      (by simp [hlim.1, hflat]) (by simp; omega) (by rw [hn]; omega)
+    have heff : chunkPutEffs hash c =
+        copyLoop hash (hash ((content.drop c.start).take (c.stop - c.start + 1)))
+          ((content.drop c.start).take (c.stop - c.start + 1)).length c.start []
+          (limitChunks (c.stop - c.start + 1) c.s.chunks .eof).1 .eof := by
+      unfold chunkPutEffs
+      simp only [hfin, hlim.2, hcd, hn]
+    have htake : content.take c.start ++ (content.drop c.start).take (c.stop - c.start + 1) = content.take (c.stop + 1) := by
+      have hsum : c.start + (c.stop - c.start + 1) = c.stop + 1 := by omega
+      have h2 : content.take (c.start + (c.stop - c.start + 1)) =
+          content.take c.start ++ (content.drop c.start).take (c.stop - c.start + 1) := List.take_add
+      rw [← h2, hsum]
+    have := ih (c.stop + 1) hrest (by omega)
+    constructor
+    · simp only [List.flatMap_cons, run_append]
+      rw [heff, hput.2, hlim.1, hflat, htake]
+      exact this.1
+    · intro r hr
+      simp only [List.map_cons, List.mem_cons] at hr
+      rcases hr with rfl | hr
+      · rw [heff]; exact hput.1
+      · exact this.2 r hr
+
+/-- **A chunked download that delivers every chunk stores the blob.**  One `Chunked(d, size)` on an absent file, then
+    `Chunker.Put`s that tile the content in order, each verified against its own digest, then `Close`: every Put answers
+    ok and the file IS the content — so, if the content hashes to `d`, the blob is present with the right content although
+    no whole-file digest was ever checked.  (Out of order, partial or failing sessions: finding F10-cache.) -/
+theorem session_tiling_complete (hash : Bytes → Digest) (content : Bytes) (puts : List CPut)
+    (ht : Tiles hash content 0 puts) :
+    run (sessionEffs hash none content.length puts).1 none = some content ∧
+    ∀ r ∈ (sessionEffs hash none content.length puts).2, r = .ok := by
+  have := tiles_run hash content puts 0 ht (Nat.zero_le _)
+  unfold sessionEffs
+  simp only [Option.map_none, reduceCtorEq, if_false]
+  refine ⟨?_, this.2⟩
+  simp only [run_cons, applyEff, run_append]
+  have h0 : (some [] : FileSt) = some (content.take 0) := by simp
+  rw [h0, this.1]
+  rfl
+
+example : Tiles idh [1, 2, 3, 4] 0 [⟨0, 1, [1, 2], ⟨[[1], [2]], .eof⟩⟩, ⟨2, 3, [3, 4], ⟨[[3, 4]], .eof⟩⟩] := by
+  simp [Tiles, GoodScript, idh]
 
 end OllamaVerif.C08
